@@ -13,6 +13,11 @@ claimed = {
    note="Trusted: go/ssa translation, gvc memory model, bytes.Equal contract (assumed: equal iff same length and bytes), SMT solvers. Not covered yet: reader side, payload/segmentation encoding, lookup sections, file I/O.",
    tech="contract-based deductive verification: own VC generator over go/ssa + z3/cvc5",
    ref="DESIGN.md section 4 (C01)"),
+ "C07": dict(
+   text="Deductive proof of the reference-time re-basing that makes merged and re-based index files keep every stream's absolute first/last packet time: region contracts on the real code of Writer.AddIndex (from the computation of the new reference second to the return) and Writer.AddStream (the re-basing step), with loop invariants over all streams and 64-bit wrap-around arithmetic as bit-vectors; the same shift is applied to first and last packet time, old streams are shifted by (old reference - new reference), copied streams by (reader reference - new reference), and the new reference second never exceeds the old one. The undo of remapped hosts relies on the host-table contracts proved under C01. Other parts of the property (payload copy, newest-wins skipping, the manager's splice) are added as contracts reach them; what is under contract is listed per run in the evidence.",
+   note="Assumed: contracts of package time on whole seconds (time.Unix, Time.Add, Time.Unix, Time.Sub, Duration.Nanoseconds: listed in the evidence as assumed), region assumptions (facts established by the code before the region, e.g. streamCountBefore <= len(streams)), run-time checks inside the two large functions are assumed to pass (nosafety). Search-result equality and file I/O are not covered.",
+   tech="contract-based deductive verification: region contracts + loop invariants, own VC generator over go/ssa + z3/cvc5",
+   ref="DESIGN.md section 4 (C07)"),
  "C18": dict(
    text="Deductive proof of the arithmetic and combination steps of the analysis on the real closures: the saturating add and increment are exact (bit-vector proof), the alternation step takes min of minima / max of maxima before adding (rule-site assertions), the suffix merge computes the longest common suffix of the two branch suffixes (loop invariant + assertion), and both walks are free of index panics for every well-formed program. The soundness of the memoised walk as a whole is not a theorem about arbitrary instruction graphs; for it a bounded stand-in (labelled bounded in the evidence, not counted as proved) compares AcceptedLength/ConstantSuffix with brute-force matching over a regex grammar.",
    note="Assumed: syntax.Compile emits programs whose Out/Arg indices are in range (wfprog); termination of the walks is not proved. The stand-in is bounded (expression depth and word length stated in the evidence).",
